@@ -17,12 +17,14 @@ TABLE = {
         ("Proofs/SendRelP.v", ["sr_send_safe", "sr_get_packets_safe", "prompt_all", "prompt_small"]),
         ("Proofs/ConnP.v", ["cstep_safe", "crun_safe"]),
         ("Proofs/RSysP.v", ["sys_inv_holds", "sys_ordered_prefix", "sys_ordered_prefix_ba"]),
+        ("Proofs/RLiveP.v", ["good_tick_delivers_budget_suffices", "good_tick_progress", "good_ticks_deliver", "eventually_delivered", "drain_succeeds", "good_ticks_is_run"]),
     ], "Safety: for every order, duplication and loss of honest packets and every interleaving of receive calls, what the application obtained is a byte-identical prefix of what was submitted. Liveness is stated as progress: once every part of a message has arrived it is buffered and receive_message hands it over; a due message that fits the budget is retransmitted at the next tick."),
     "C02": ("ReliableUnordered: each message delivered exactly once, intact", [
         ("Proofs/RecvRelP.v", ["unordered_exactly_once", "unordered_eager", "unordered_receive_available", "honest_step_ok_or_memory", "exec_stops_only_on_memory", "drained_is_empty"]),
         ("Proofs/SliceP.v", ["ctor_reassembles"]),
         ("Proofs/SendRelP.v", ["sr_get_packets_safe", "prompt_all", "prompt_small"]),
         ("Proofs/RSysP.v", ["sys_unordered_exactly_once", "sys_unordered_exactly_once_ba"]),
+        ("Proofs/RLiveP.v", ["good_tick_progress", "good_ticks_deliver", "eventually_delivered"]),
     ], ""),
     "C03": ("Message integrity / fragmentation", [
         ("Proofs/SliceP.v", ["slices_partition", "ctor_reassembles", "sctor_process_safe"]),
@@ -32,6 +34,8 @@ TABLE = {
         ("Proofs/SendUnrelP.v", ["su_get_packets_safe", "su_get_packets_spec", "su_carried"]),
         ("Proofs/RecvUnrelP.v", ["ru_process_slice_safe"]),
         ("Proofs/RSysP.v", ["sys_unreliable_submitted", "sys_got_submitted", "sys_ordered_prefix", "sys_unordered_exactly_once"]),
+        ("Proofs/RMultP.v", ["sys_unreliable_multiplicity", "sys_unreliable_multiplicity_ba", "non_duplicating_network_at_most_once", "lost_slice_loses_message", "lost_packet_loses_message"]),
+        ("Proofs/RCarryP.v", ["sys_unreliable_carried", "submitted_once_obtained_at_most_once"]),
     ], ""),
     "C06": ("renet survives hostile packets", [
         ("Proofs/PacketP.v", ["from_bytes_no_panic"]),
